@@ -125,7 +125,7 @@ def check(ctx):
                 for val, bb in q.term(sb2)['targets']:
                     if val == 0:
                         edges.add((sb2, bb))
-            after = edges and not any(a_[0] in q.reachable(0, removed_edges=edges) for a_ in acc)
+            after = edges and not any(a_[0] in reach_under(q, tb, {}, removed_edges=edges) for a_ in acc)
             v_ = tb.call_value(vals[0][0])
             propagated = any(m_call(t, name='from_residual') is not None and contains(t, lambda x: strip_sites(x) == strip_sites(v_)) for bi, si, t in ret_defs(tb))
             good3 = whole and after and propagated
